@@ -244,7 +244,12 @@ func (c *ServerChannel) EstablishSession(
 			negEncryptOpts = append(negEncryptOpts, v.(SessionEncryption))
 		}
 
-		if len(negCompOpts) > 1 || len(negEncryptOpts) > 1 {
+		// Negotiate when there is a choice to make, or when the single acceptable option is
+		// not the one currently in force on the transport (e.g. a TLS-only server on a
+		// connection that is still unencrypted).
+		if len(negCompOpts) > 1 || len(negEncryptOpts) > 1 ||
+			(len(negCompOpts) == 1 && negCompOpts[0] != c.transport.Compression()) ||
+			(len(negEncryptOpts) == 1 && negEncryptOpts[0] != c.transport.Encryption()) {
 			// Negotiate the session options
 			if err = c.negotiateSession(ctx, negCompOpts, negEncryptOpts); err != nil {
 				return err
